@@ -18,6 +18,7 @@ CONSTANTS
   GuardPerClient = FALSE
   RearmPerRead = FALSE
   NoCloseOnError = FALSE
+  RearmAfterConnect = FALSE
 CHECK_DEADLOCK FALSE
 CONSTRAINT HighWater
 POSTCONDITION Report
